@@ -1693,3 +1693,30 @@ Q(name="e2_black_hole_purges_datagrams_slice", props=["C16", "C13"], func=r"conn
   functions=["Connection::detect_lost_packets (slice: reaction to a detected black hole)"], pre=lambda c: "true", post=bh_post,
   bounds="from an arbitrary state: when MtuDiscovery::black_hole_detected reports a black hole, the congestion controller is told the current (reduced) MTU and the outgoing datagram queue is purged with the Datagrams::max_size value computed AFTER that reduction; without a black hole nothing is purged; located through the source text",
   replay=("conn_black_hole_datagrams_native", lambda m: [dict(x=0)]))
+
+
+# ------------------------------------------------------------------ C13: a packet is padded out to the full segment size only when this datagram's own budget covers a full segment (slice)
+def pg_post(c, p):
+    st = p.p.state
+    pad = p.called(r"PacketBuilder::pad_to$")
+    if not pad:
+        return "true"
+    dbg = c.fn.debug
+    try:
+        cap, start, seg = dbg["buf_capacity"][0], dbg["datagram_start"][0], dbg["segment_size"][0]
+    except (KeyError, IndexError):
+        return "false"
+    capv, startv, segv = c.inp(cap, BV64), c.inp(start, BV64), c.inp(seg, BV64)
+    a = pad[0][1][1]
+    if len(pad) != 1 or a[0] != "val":
+        return "false"
+    # padded to exactly the segment size, and only if start + segment_size <= the capacity granted to THIS datagram
+    return and_(eq(a[1].t, "((_ extract 15 0) %s)" % segv), ule("(bvadd %s %s)" % (zext(startv, 64), zext(segv, 64)), zext(capv, 64)))
+
+
+Q(name="e2_poll_transmit_pad_guard_slice", props=["C13"], func=r"connection/mod\.rs:245:1[^>]*>::poll_transmit$",
+  src="connection/mod.rs", within=r"^    pub fn poll_transmit\(", start_line=r"if pad_datagram_to_mtu && ", end_line=r"let last_packet_number = builder\.exact_number;",
+  check_stop=True, allowed_panics=r".", ignore_untranslatable=r"^loop at",
+  functions=["Connection::poll_transmit (slice: the padding decision before a packet is finished)"], pre=lambda c: "true", post=pg_post,
+  bounds="from an arbitrary state (datagram_start, segment_size, buf_capacity and the flag unconstrained): PacketBuilder::pad_to is called with exactly segment_size, and only when datagram_start + segment_size <= buf_capacity, the budget computed for this datagram (smaller than a segment for loss probes); the locals are identified through the MIR's debug-name table, the slice through the source text",
+  replay=("conn_loss_probe_size_native", lambda m: [dict(x=0)]))
